@@ -46,11 +46,26 @@ theorem bodyInterrupt_eq : bodyInterrupt =
 
 theorem bodyClearInterrupt_eq : bodyClearInterrupt = ["atomic.StoreUint32(&vm.interrupted, 0)"] := rfl
 
-theorem bodyleaveAbrupt_eq : bodyleaveAbrupt = ["r.jobQueue = nil", "r.ClearInterrupt()"] := rfl
+/-- leaveAbrupt: queue dropped, flag cleared (model `leaveAbrupt`), and the aborted program forgotten (e71ffae) -/
+theorem bodyleaveAbrupt_eq : bodyleaveAbrupt = ["r.jobQueue = nil", "r.ClearInterrupt()", "r.vm.prg = nil", "r.vm.sb = -1"] := rfl
 
 theorem recoverRunProgram_eq : recoverRunProgram =
     "if ex := asUncatchableException(x); ex != nil { err = ex if len(vm.callStack) == 0 { r.leaveAbrupt() } } else { panic(x) }" := rfl
 
 theorem recoverRunWrapped_eq : recoverRunWrapped = recoverRunProgram := rfl
+
+/-- Runtime.Try (9e5aa04): an uncatchable passing through at depth 0 runs leaveAbrupt and is re-panicked
+    (model `apiCallJ false` … `apiRecover`) -/
+theorem tryDefer_eq : tryDefer =
+    "defer func() { if x := recover(); x != nil { if len(r.vm.callStack) == 0 && asUncatchableException(x) != nil { r.leaveAbrupt() } panic(x) } }()" := rfl
+
+/-- handleThrow closes open iterators only for catchable payloads (5d979ec): model `execForOf` runs the iterator's
+    return() after a JS exception and not after an uncatchable error -/
+theorem handleThrowRestore_eq : handleThrowRestore = "_ = vm._restoreStacks(tf.iterLen, tf.refLen, ex != nil)" := rfl
+
+/-- generator.step (e8f901b): on the panic path the try stack is cut to just below the activation's marker frame
+    (model `execFrame` with gen = true: `ts := st.ts`) -/
+theorem generatorStepDefer_eq : generatorStepDefer =
+    "defer func() { if !completed { if l := int(g.tryStackLen) - 1; l >= 0 && l < len(g.vm.tryStack) { g.vm.tryStack = g.vm.tryStack[:l] } } }()" := rfl
 
 end GojaModel.C15.Tie
